@@ -22,7 +22,7 @@ Behavioural property of the system (it is supposed to hold for every input):
 
 Your task: produce a small, realistic source change (the kind of bug a developer could plausibly introduce: an off-by-one, swapped operands in one macro arm, a wrong index in one kernel, a dropped or weakened check, a wrong constant, a missing case, a copy-paste slip for one type or one shape, a reordered pair of statements...) that BREAKS this property, while
   (a) the project still compiles, and
-  (b) the existing test suite still passes completely: run `cd {wt} && CARGO_PROFILE_DEV_DEBUG=0 CARGO_PROFILE_TEST_DEBUG=0 CARGO_TARGET_DIR={wt}/target cargo test --workspace --no-fail-fast --offline 2>&1 | grep -E "^test result|FAILED|panicked"` (no network is available; expect "7 passed", "83 passed", "562 passed" and no failures; the first build takes several minutes, later ones are incremental; disk space is scarce, so always keep the two CARGO_PROFILE_*_DEBUG=0 variables on every cargo command and use only this one target directory), and
+  (b) the existing test suite still passes completely: run `cd {wt} && CARGO_INCREMENTAL=0 CARGO_PROFILE_DEV_DEBUG=0 CARGO_PROFILE_TEST_DEBUG=0 CARGO_TARGET_DIR={wt}/target cargo test --workspace --no-fail-fast --offline 2>&1 | grep -E "^test result|FAILED|panicked"` (no network is available; expect "7 passed", "83 passed", "562 passed" and no failures; the first build takes several minutes, later ones are incremental; disk space is scarce, so always keep the CARGO_INCREMENTAL=0 and the two CARGO_PROFILE_*_DEBUG=0 variables on every cargo command and use only this one target directory), and
   (c) the break needs something SPECIFIC to manifest (a particular element kind, shape, form, operand order, operator, value range, multi-step sequence, unusual input, or two cooperating sites that each look fine alone) - not something that ordinary use would expose at once.
 First check on the unchanged tree that the behaviour you are going to break is actually correct there (the tree has some pre-existing defects; do not rely on those).
 
